@@ -39,6 +39,8 @@ def classify(case):
         if (st == 451 and inside) or (st != 451 and not inside):
             return "time-frame-verdict-wrong-for-the-clock"
     if o.get("from_peer") or (st == 200 and q.get("method") == "CONNECT") or (o.get("dials") and st not in (407, 403, 451)):
+        if ht.endswith("-dot") or "-dot-" in ht:
+            return "trailing-dot-spelling-forwarded-although-refusable"
         if "zone" in ht:
             return "zone-qualified-literal-forwarded-under-deny"
         if "idna" in ht:
